@@ -203,6 +203,7 @@ type world struct {
 	ts      int64
 	val     int64
 	cur     map[string]int64 // "target|path" -> current value written by the harness
+	decN    int64
 }
 
 func newWorld(targets []string, opts ...subscribe.Option) *world {
@@ -240,6 +241,13 @@ func (w *world) apply(target string, o wop) {
 		// an origin goes into the PREFIX (where the collector puts it)
 		og, el := orig(o.path)
 		w.c.GnmiUpdate(&pb.Notification{Timestamp: w.ts, Prefix: &pb.Path{Target: target, Origin: og}, Update: []*pb.Update{{Path: mkPath(el), Val: ival(v)}}})
+	case "dec":
+		// decimals that differ from one another only beyond float32 resolution
+		w.decN++
+		digits := int64(16777216) + w.decN
+		w.noteHeld(target, okey(o.path), digits)
+		og, el := orig(o.path)
+		w.c.GnmiUpdate(&pb.Notification{Timestamp: w.ts, Prefix: &pb.Path{Target: target, Origin: og}, Update: []*pb.Update{{Path: mkPath(el), Val: &pb.TypedValue{Value: &pb.TypedValue_DecimalVal{DecimalVal: &pb.Decimal64{Digits: digits, Precision: 0}}}}}})
 	case "atomic":
 		w.val++
 		pre := mkPath(o.path)
@@ -361,6 +369,9 @@ func valOf(n *pb.Notification) string {
 	}
 	if iv, ok := n.Update[0].GetVal().GetValue().(*pb.TypedValue_IntVal); ok {
 		return fmt.Sprint(iv.IntVal)
+	}
+	if dv, ok := n.Update[0].GetVal().GetValue().(*pb.TypedValue_DecimalVal); ok && dv.DecimalVal.GetPrecision() == 0 {
+		return fmt.Sprint(dv.DecimalVal.GetDigits())
 	}
 	return n.Update[0].GetVal().String()
 }
